@@ -1,6 +1,12 @@
 pub mod c03;
 pub mod c04;
 pub mod c05;
+pub mod c06;
+pub mod c07;
+pub mod c09;
+pub mod c10;
+pub mod c11;
+pub mod c20;
 
 use crate::session::Session;
 use crate::Ctx;
@@ -10,6 +16,12 @@ pub fn run(s: &mut Session, ctx: &Ctx, prop: &str) -> bool {
         "C03" => c03::run(s, ctx),
         "C04" => c04::run(s, ctx),
         "C05" => c05::run(s, ctx),
+        "C06" => c06::run(s, ctx),
+        "C07" => c07::run(s, ctx),
+        "C09" => c09::run(s, ctx),
+        "C10" => c10::run(s, ctx),
+        "C11" => c11::run(s, ctx),
+        "C20" => c20::run(s, ctx),
         _ => return false,
     }
     true
